@@ -40,10 +40,42 @@ type C04Case struct {
 	// must not be reported as a success.
 	Broken     int    `json:"broken,omitempty"`
 	BrokenKind string `json:"broken_kind,omitempty"`
+	// Start, when set, is the start of the queried range (unix ns): the fake daemon then honours
+	// the since / until options the way the real one does, and the merged stream must hold every
+	// record from Start on (older ones of the same second may come along).
+	Start int64 `json:"start,omitempty"`
+
+	raw [][]dl.Line // the containers' whole logs in window mode (Ctrs then holds what is expected)
+}
+
+// c04Window returns the bounds SelectLogs is called with.
+func c04Window(c C04Case) (pcommon.Timestamp, pcommon.Timestamp) {
+	if c.Start > 0 {
+		return pcommon.Timestamp(c.Start), pcommon.Timestamp(c04Base + 3600e9)
+	}
+	return pcommon.Timestamp(1), pcommon.Timestamp(1 << 62)
+}
+
+// c04InWindow drops the records older than the queried start (window mode).
+func c04InWindow(c C04Case, out []c04Out) []c04Out {
+	if c.Start == 0 {
+		return out
+	}
+	kept := out[:0:0]
+	for _, o := range out {
+		if o.ts >= c.Start {
+			kept = append(kept, o)
+		}
+	}
+	return kept
 }
 
 func c04Ctr(c C04Case, i int) fakedocker.Container {
-	ctr := dl.Ctr(fmt.Sprintf("id%d", i), fmt.Sprintf("c%d", i), nil, c.Ctrs[i])
+	lines := c.Ctrs[i]
+	if c.raw != nil {
+		lines = c.raw[i]
+	}
+	ctr := dl.Ctr(fmt.Sprintf("id%d", i), fmt.Sprintf("c%d", i), nil, lines)
 	ctr.Frag = c.Frag
 	if c.Broken == i+1 {
 		switch c.BrokenKind {
@@ -87,14 +119,15 @@ func c04Attrs(r logstorage.Record) string {
 
 // c04Solo reads container i alone (the path without a merge) on a fresh Querier.
 func c04Solo(c C04Case, i int) ([]c04Out, error) {
-	d := &fakedocker.Daemon{}
+	d := &fakedocker.Daemon{HonourWindow: c.Start > 0}
 	for k := range c.Ctrs {
 		d.Containers = append(d.Containers, c04Ctr(c, k))
 	}
 	q, _ := dockerlog.NewQuerier(d)
 	name := fmt.Sprintf("c%d", i)
 	m := logql.LabelMatcher{Label: "container", Op: logql.OpEq, Value: name}
-	it, err := q.SelectLogs(context.Background(), pcommon.Timestamp(1), pcommon.Timestamp(1<<62), logqlengine.SelectLogsParams{Labels: []logql.LabelMatcher{m}})
+	from, to := c04Window(c)
+	it, err := q.SelectLogs(context.Background(), from, to, logqlengine.SelectLogsParams{Labels: []logql.LabelMatcher{m}})
 	if err != nil {
 		return nil, err
 	}
@@ -109,7 +142,7 @@ func c04Solo(c C04Case, i int) ([]c04Out, error) {
 	err = it.Err()
 	_ = it.Close()
 	d.Done()
-	return out, err
+	return c04InWindow(c, out), err
 }
 
 func permutations(n int) [][]int {
@@ -136,12 +169,13 @@ func permutations(n int) [][]int {
 }
 
 func c04Run(c C04Case, order []int) ([]c04Out, error, fakedocker.Report) {
-	d := &fakedocker.Daemon{Waves: []int{len(c.Ctrs)}, Order: [][]int{order}}
+	d := &fakedocker.Daemon{Waves: []int{len(c.Ctrs)}, Order: [][]int{order}, HonourWindow: c.Start > 0}
 	for i := range c.Ctrs {
 		d.Containers = append(d.Containers, c04Ctr(c, i))
 	}
 	q, _ := dockerlog.NewQuerier(d)
-	it, err := q.SelectLogs(context.Background(), pcommon.Timestamp(1), pcommon.Timestamp(1<<62), logqlengine.SelectLogsParams{})
+	from, to := c04Window(c)
+	it, err := q.SelectLogs(context.Background(), from, to, logqlengine.SelectLogsParams{})
 	if err != nil {
 		return nil, err, d.Done()
 	}
@@ -158,7 +192,7 @@ func c04Run(c C04Case, order []int) ([]c04Out, error, fakedocker.Report) {
 	}
 	err = it.Err()
 	_ = it.Close()
-	return out, err, d.Done()
+	return c04InWindow(c, out), err, d.Done()
 }
 
 // c04History runs a sequence of SelectLogs calls with different selectors on one Querier and
@@ -207,6 +241,19 @@ func c04History(c C04Case) *evid.Violation {
 }
 
 func c04Check(c C04Case) (r evid.Result) {
+	if c.Start > 0 {
+		// Window mode: the daemon holds the whole logs, the expectations what lies in the window.
+		c.raw = c.Ctrs
+		c.Ctrs = make([][]dl.Line, len(c.raw))
+		for i, lines := range c.raw {
+			for _, l := range lines {
+				if l.TS >= c.Start {
+					c.Ctrs[i] = append(c.Ctrs[i], l)
+				}
+			}
+		}
+		r.Class(true, "queried-from-a-start")
+	}
 	n := len(c.Ctrs)
 	if len(c.History) > 0 {
 		r.Class(true, "history")
@@ -425,6 +472,22 @@ func c04Gen(t *rapid.T) C04Case {
 	if n >= 1 && rapid.IntRange(0, 7).Draw(t, "one-undecodable-stream") == 0 {
 		c.Broken = rapid.IntRange(1, n).Draw(t, "broken")
 		c.BrokenKind = rapid.SampledFrom([]string{"tty", "syserr", "badts"}).Draw(t, "broken-kind")
+		return c
+	}
+	if n >= 1 && rapid.IntRange(0, 4).Draw(t, "queried-from-a-start") == 0 {
+		// The range starts inside the data, at a fraction of a second whose decimal spelling is
+		// short or begins with zeros as often as not.
+		off := rapid.SampledFrom([]int64{0, 1, 5e6, 42, 99999999, 1e8, 5e8, 123456789, 999999999}).Draw(t, "start-fraction")
+		c.Start = c04Base - 2e9 + off
+		// ... and the logs begin two seconds earlier, so that records lie on both sides of it.
+		for i := range c.Ctrs {
+			for j := range c.Ctrs[i] {
+				c.Ctrs[i][j].TS += -2e9 + rapid.SampledFrom([]int64{0, 1, 3e6, 5e6, 7e6, 1e8, 4e8, 6e8, 1e9, 2e9}).Draw(t, "shift")
+			}
+			if rapid.IntRange(0, 9).Draw(t, "unsorted-again") != 0 {
+				sort.SliceStable(c.Ctrs[i], func(a, b int) bool { return c.Ctrs[i][a].TS < c.Ctrs[i][b].TS })
+			}
+		}
 		return c
 	}
 	if n >= 2 && rapid.IntRange(0, 2).Draw(t, "history") == 0 {
